@@ -61,6 +61,35 @@ def etag_scheme(kind, data):
     return hashlib.sha1(b"blob %d\x00" % len(data) + data).hexdigest()
 
 
+_SCHEME_HOLDS = {}
+
+
+def scheme_holds(kind):
+    """Does this tree still derive ETags the way the harness assumes (git blob id / md5 of the stored bytes)?
+
+    Asked once per back end on a scratch store.  The properties do not prescribe a scheme; where the harness uses the
+    assumed one as a shortcut oracle (C04, C05: "the listed ETag belongs to the served bytes") it does so only while the
+    implementation itself follows it, and falls back to the implementation-independent oracles otherwise.
+    """
+    if kind not in _SCHEME_HOLDS:
+        import shutil
+
+        d = env.fresh_dir("scheme")
+        try:
+            st = open_store(kind, os.path.join(d, "c"), create=True)
+            st.import_one("probe.ics", "text/calendar", [B.ALL_BODIES["X"]])
+            ok = True
+            for (n, ct, et) in st.iter_with_etag():
+                data = b"".join(st.get_file(n, ct, et).content)
+                ok = ok and etag_scheme(kind, data) == et
+            _SCHEME_HOLDS[kind] = ok
+        except Exception:
+            _SCHEME_HOLDS[kind] = False
+        finally:
+            shutil.rmtree(d, ignore_errors=True)
+    return _SCHEME_HOLDS[kind]
+
+
 class OneStore:
     def __init__(self, kind):
         self.kind = kind
